@@ -37,6 +37,8 @@ func c04Prepare(caseID int, idx int, behaviour, proto, launch string, managed bo
 		pcfg["exitDelayMs"] = 600
 	case "exit-1000":
 		pcfg["exitDelayMs"] = 1000
+	case "busy-exit-1200":
+		pcfg["exitDelayMs"] = 1200
 	case "never", "frozen":
 		pcfg["neverExit"] = behaviour == "never"
 	case "failed-handshake":
@@ -102,7 +104,7 @@ func c04Prepare(caseID int, idx int, behaviour, proto, launch string, managed bo
 		s.cleanup = func() { within(60*time.Second, l.Client.Kill) }
 	}
 	switch behaviour {
-	case "busy":
+	case "busy", "busy-exit-1200":
 		go cli.Do("sleep", "ms", 10000)
 		time.Sleep(150 * time.Millisecond)
 	case "frozen":
